@@ -46,7 +46,7 @@ def _expand(task):
 
 
 def explore(factory, alphabet, enabled, workers=None, max_states=200000,
-            log=None):
+            log=None, partial_ok=False):
     """Returns graph dict: nodes, out, edges (1-based ids for TLA+), paths."""
     t0 = time.time()
     workers = workers or min(16, os.cpu_count() or 1)
@@ -83,6 +83,9 @@ def explore(factory, alphabet, enabled, workers=None, max_states=200000,
                         out.append([])
                         nxt.append(j)
                         if len(nodes) > max_states:
+                            if partial_ok:
+                                return {'nodes': nodes, 'paths': paths,
+                                        'partial': True}
                             raise RuntimeError('state budget exceeded')
                     edges.append({'src': nid + 1, 'dst': j + 1,
                                   'a': alphabet[ai], 'ai': ai + 1, 'out': o})
